@@ -79,22 +79,27 @@ type GraphOpts struct {
 	MaxElems    int      // elements per section
 	SchemaDocs  bool     // allow documents whose root is a plain schema (whole-document targets)
 	NoPathItems bool
+	Payloads    bool // plant free-form payloads that contain the key $ref (they are not reference positions)
+	DagPct      int  // probability (percent) that the whole graph is wired acyclic by construction
 	OnlyFragAbs bool // refs are fragment-only or absolute URLs (the documented domain of the root-based entry points)
 }
 
 func DefaultGraphOpts() GraphOpts {
-	return GraphOpts{MaxDocs: 5, Spell: SpellAll, RefPct: 35, CycleBias: 8, MaxElems: 3, SchemaDocs: true}
+	return GraphOpts{MaxDocs: 5, Spell: SpellAll, RefPct: 35, CycleBias: 8, MaxElems: 3, SchemaDocs: true, DagPct: 40}
 }
 
 type target struct {
-	p model.Pos
-	k model.Kind
+	p      model.Pos
+	k      model.Kind
+	idx    int
+	isHole bool
 }
 
 type hole struct {
 	holder map[string]any
 	at     model.Pos
 	k      model.Kind
+	idx    int // creation index of the hole's own position among the targets
 }
 
 type gstate struct {
@@ -104,6 +109,11 @@ type gstate struct {
 	holes   []hole
 	label   int
 	names   []string
+}
+
+func (s *gstate) addTarget(p model.Pos, k model.Kind, isHole bool) int {
+	s.targets = append(s.targets, target{p, k, len(s.targets), isHole})
+	return len(s.targets) - 1
 }
 
 func (s *gstate) newLabel(prefix string) string {
@@ -127,18 +137,27 @@ func (s *gstate) genSchema(at model.Pos, depth int, refPct int) map[string]any {
 		if rapid.IntRange(0, 5).Draw(t, "sibling") == 0 {
 			h["description"] = "sibling-of-ref"
 		}
-		s.holes = append(s.holes, hole{h, at, model.KSchema})
-		s.targets = append(s.targets, target{at, model.KSchema})
+		s.holes = append(s.holes, hole{h, at, model.KSchema, s.addTarget(at, model.KSchema, true)})
 		return h
 	}
 	m := map[string]any{"title": s.newLabel("S")}
-	s.targets = append(s.targets, target{at, model.KSchema})
+	s.addTarget(at, model.KSchema, false)
 	if s.o.IDs && rapid.IntRange(0, 5).Draw(t, "hasid") == 0 {
 		pool := idPool
 		if s.o.RelDirIDs {
 			pool = append(append([]string{}, idPool...), relDirIDPool...)
 		}
 		m["id"] = rapid.SampledFrom(pool).Draw(t, "id")
+	}
+	if s.o.Payloads && rapid.IntRange(0, 7).Draw(t, "payload") == 0 {
+		switch rapid.IntRange(0, 2).Draw(t, "payloadkind") {
+		case 0:
+			m["example"] = map[string]any{"$ref": "#/definitions/not-a-reference"}
+		case 1:
+			m["x-payload"] = map[string]any{"$ref": "nowhere.json#/x", "n": []any{map[string]any{"$ref": "#"}}}
+		default:
+			m["default"] = map[string]any{"$ref": 1}
+		}
 	}
 	if depth >= 3 {
 		return m
@@ -188,12 +207,12 @@ func (s *gstate) genSchema(at model.Pos, depth int, refPct int) map[string]any {
 
 func (s *gstate) genParam(at model.Pos, refPct int) map[string]any {
 	t := s.t
-	s.targets = append(s.targets, target{at, model.KParam})
 	if rapid.IntRange(0, 99).Draw(t, "pisref") < refPct {
 		h := map[string]any{}
-		s.holes = append(s.holes, hole{h, at, model.KParam})
+		s.holes = append(s.holes, hole{h, at, model.KParam, s.addTarget(at, model.KParam, true)})
 		return h
 	}
+	s.addTarget(at, model.KParam, false)
 	if rapid.Bool().Draw(t, "body") {
 		return map[string]any{"name": s.newLabel("P"), "in": "body", "schema": s.genSchema(at.Child("schema"), 1, 60)}
 	}
@@ -202,12 +221,12 @@ func (s *gstate) genParam(at model.Pos, refPct int) map[string]any {
 
 func (s *gstate) genResponse(at model.Pos, refPct int) map[string]any {
 	t := s.t
-	s.targets = append(s.targets, target{at, model.KResponse})
 	if rapid.IntRange(0, 99).Draw(t, "risref") < refPct {
 		h := map[string]any{}
-		s.holes = append(s.holes, hole{h, at, model.KResponse})
+		s.holes = append(s.holes, hole{h, at, model.KResponse, s.addTarget(at, model.KResponse, true)})
 		return h
 	}
+	s.addTarget(at, model.KResponse, false)
 	m := map[string]any{"description": s.newLabel("R")}
 	if rapid.Bool().Draw(t, "rschema") {
 		m["schema"] = s.genSchema(at.Child("schema"), 1, 60)
@@ -217,12 +236,12 @@ func (s *gstate) genResponse(at model.Pos, refPct int) map[string]any {
 
 func (s *gstate) genPathItem(at model.Pos, refPct int) map[string]any {
 	t := s.t
-	s.targets = append(s.targets, target{at, model.KPathItem})
 	if rapid.IntRange(0, 99).Draw(t, "iisref") < refPct {
 		h := map[string]any{}
-		s.holes = append(s.holes, hole{h, at, model.KPathItem})
+		s.holes = append(s.holes, hole{h, at, model.KPathItem, s.addTarget(at, model.KPathItem, true)})
 		return h
 	}
+	s.addTarget(at, model.KPathItem, false)
 	m := map[string]any{"x-label": s.newLabel("I")}
 	if rapid.Bool().Draw(t, "iparams") {
 		var arr []any
@@ -370,7 +389,17 @@ func Graph(t *rapid.T, o GraphOpts) GraphCase {
 		urls = append(urls, rest[:nd-1]...)
 	}
 	docs := map[string]map[string]any{}
-	for i, u := range urls {
+	// documents are generated in a drawn order: the creation index orders the
+	// targets in dag mode, and the root must not always come first (back references)
+	order := make([]int, len(urls))
+	for i := range order {
+		order[i] = i
+	}
+	if len(urls) > 1 {
+		order = rapid.Permutation(order).Draw(t, "genorder")
+	}
+	for _, i := range order {
+		u := urls[i]
 		base := model.Pos{Doc: u}
 		if i > 0 && o.SchemaDocs && rapid.IntRange(0, 5).Draw(t, "schemadoc") == 0 {
 			// a document whose root is a plain schema: target of whole-document refs
@@ -439,6 +468,7 @@ func Graph(t *rapid.T, o GraphOpts) GraphCase {
 	if spell == 0 {
 		spell = SpellAll
 	}
+	dag := o.DagPct > 0 && rapid.IntRange(0, 99).Draw(t, "dag") < o.DagPct
 	for _, h := range s.holes {
 		cands := byKind[h.k]
 		if o.OnlyFragAbs {
@@ -448,9 +478,35 @@ func Graph(t *rapid.T, o GraphOpts) GraphCase {
 			s.plug(h)
 			continue
 		}
+		if dag {
+			// acyclic by construction: only targets created after the hole
+			var later []target
+			for _, c := range cands {
+				if c.idx > h.idx {
+					later = append(later, c)
+				}
+			}
+			cands = later
+			if len(cands) == 0 {
+				s.plug(h)
+				continue
+			}
+		}
+		if h.k != model.KSchema && rapid.IntRange(0, 99).Draw(t, "prefercontent") < 60 {
+			// keep most parameter/response/path-item chains well-founded
+			var content []target
+			for _, c := range cands {
+				if !c.isHole {
+					content = append(content, c)
+				}
+			}
+			if len(content) > 0 {
+				cands = content
+			}
+		}
 		var tg target
 		var anc []target
-		if o.CycleBias > 0 {
+		if o.CycleBias > 0 && !dag {
 			for _, c := range cands {
 				if isAncestor(c.p, h.at) && c.p != h.at {
 					anc = append(anc, c)
